@@ -28,7 +28,7 @@ from mwlib.apps import make_nuwiki as mn  # noqa: E402
 from mwlib.core import metabook as mb  # noqa: E402
 from mwlib.core import nuwiki  # noqa: E402
 from mwlib.network import fetch, sapi  # noqa: E402
-from mwlib.utils import conf  # noqa: E402
+from mwlib.utils import conf, unorganized  # noqa: E402
 
 from vt.harness import c11_wiki  # noqa: E402
 
@@ -248,6 +248,8 @@ def read_back(fsdir, case, wiki):
     for p in case["wiki"]["pages"]:
         if p["ns"] == 6:
             names.add(p["title"])
+        for r in p["revs"]:
+            names.update("File:" + i for i in r.get("imgs", []))
     for t in sorted(names):
         ent = {}
         try:
@@ -276,11 +278,12 @@ def read_back(fsdir, case, wiki):
     for k, p in a.nuwiki.revisions.items():
         revs.append([k if isinstance(k, int) else "t:" + k, p.title, getattr(p, "revid", None), p.rawtext, p.expanded])
     revs.sort(key=repr)
+    esc = {unorganized.fs_escape(t): t for t in names}
     out["all"] = {
         "revisions": revs,
         "imageinfo": sorted(k for k, _v in a.nuwiki.imageinfo.items()),
         "authors": {k: json.loads(v) if isinstance(v, str) else v for k, v in a.nuwiki.authors.items()} if a.nuwiki.authors else None,
-        "files": sorted(f for f in os.listdir(os.path.join(fsdir, "images")) if f != "safe"),
+        "files": sorted([f, esc.get(f)] for f in os.listdir(os.path.join(fsdir, "images")) if f != "safe"),
         "redirects": a.nuwiki.redirects,
         "html": sorted(str(k) for k, _v in a.nuwiki.html.items()),
     }
